@@ -1,7 +1,7 @@
 (* C17 — the remaining public entry points: ordering comparisons on vectors, defaulted epsilons / styles. *)
 From Coq Require Import ZArith Reals List Bool Lia.
 From Flocq Require Import Core BinarySingleNaN.
-From DuneV Require Import Params_gen C17_Model C17_Spec C17_Defaults C17_Proofs_Cmp.
+From DuneV Require Import Params_gen C17_Model C17_Spec C17_Spec_Round C17_Defaults C17_Proofs_Cmp C17_Proofs_Round.
 Import ListNotations.
 
 Section VecOrder.
@@ -100,3 +100,30 @@ Proof.
     destruct (C17_cmp_algebra_lemma 53 1024 c17_Hprec64 c17_Hmax64 s e a b Fa Fb Fe (c17_sign_false_nonneg _ _ e Se))
       as (_ & _ & _ & _ & _ & _ & _ & _ & _ & _ & L). exact L.
 Qed.
+
+(* ---------------------------------------------------------------- long double = x87 extended = the format (64, 16384) *)
+Definition c17_deps80 := c17_default_eps 64 16384 c17_Hprec80 c17_Hmax80.
+
+(* DefaultEpsilon<long double, style>: 8 * 2^-63 = 2^-60 and max(2^-63, (long double)(double)1e-6); bit patterns in the
+   interchange layout 1 + 15 + 63 (integer bit implicit): 0x3fc3|8000000000000000 and 0x3feb|8637bd05af6c6800 as x87 words *)
+Lemma C17_default_eps_x87_lemma :
+  (forall s, is_finite (c17_deps80 s) = true /\ Bsign (c17_deps80 s) = false) /\
+  c17_to_bits 64 16384 79 (c17_deps80 C17_RelWeak) = 0x1fe18000000000000000%Z /\
+  c17_to_bits 64 16384 79 (c17_deps80 C17_RelStrong) = 0x1fe18000000000000000%Z /\
+  c17_to_bits 64 16384 79 (c17_deps80 C17_Absolute) = 0x1ff58637bd05af6c6800%Z.
+Proof. repeat split; try (destruct s; vm_compute; reflexivity); vm_compute; reflexivity. Qed.
+
+Lemma C17_cmp_algebra_x87_lemma (s : c17_cstyle) (eps a b : binary_float 64 16384) :
+  is_finite a = true -> is_finite b = true -> is_finite eps = true -> (0 <= B2R eps)%R ->
+  c17_eq 64 16384 c17_Hprec80 c17_Hmax80 s eps a b = c17_eq 64 16384 c17_Hprec80 c17_Hmax80 s eps b a /\
+  c17_eq 64 16384 c17_Hprec80 c17_Hmax80 s eps a a = true /\
+  c17_cmp_laws (c17_flt 64 16384 a b) (c17_fgt 64 16384 a b)
+    (c17_eq 64 16384 c17_Hprec80 c17_Hmax80 s eps a b) (c17_ne 64 16384 c17_Hprec80 c17_Hmax80 s eps a b)
+    (c17_gt 64 16384 c17_Hprec80 c17_Hmax80 s eps a b) (c17_lt 64 16384 c17_Hprec80 c17_Hmax80 s eps a b)
+    (c17_ge 64 16384 c17_Hprec80 c17_Hmax80 s eps a b) (c17_le 64 16384 c17_Hprec80 c17_Hmax80 s eps a b) = true.
+Proof.
+  intros Fa Fb Fe Pe.
+  destruct (C17_cmp_algebra_lemma 64 16384 c17_Hprec80 c17_Hmax80 s eps a b Fa Fb Fe Pe)
+    as (S & R & _ & _ & _ & _ & _ & _ & _ & _ & L). auto.
+Qed.
+
